@@ -288,6 +288,9 @@ def run_case(case, reports=False, keep_objects=False):
                     ctx.ra = el
                 elif nm == "before_scenario":
                     ctx.sa = el
+                if cfg.get("observe") and nm in ("after_scenario", "after_step", "before_scenario"):
+                    # an observing hook: reads the status of the running feature (must not change any result)
+                    getattr(ctx.feature, "status", None)
                 if raised:
                     if fault_kind == "assert":
                         raise AssertionError("hookfault%d" % hookn[0])
